@@ -6,12 +6,12 @@ Local Open Scope string_scope.
 Definition trajectory_align : list string :=
   ["if[n == -1] geometry.umeyama_alignment(self.positions_xyz.T, traj_ref.positions_xyz.T, with_scale)";
    "else[n == -1] geometry.umeyama_alignment(self.positions_xyz[:n, :].T, traj_ref.positions_xyz[:n, :].T, with_scale)";
-   "if[correct_scale] self.scale(s)";
-   "if[correct_scale] self.transform(lie.se3(r_a, t_a))";
-   "if[correct_scale] lie.se3(r_a, t_a)";
-   "else[correct_scale] if[correct_only_scale] self.scale(s)";
-   "else[correct_scale] else[correct_only_scale] self.transform(lie.se3(r_a, t_a))";
-   "else[correct_scale] else[correct_only_scale] lie.se3(r_a, t_a)"].
+   "if[correct_only_scale] self.scale(s)";
+   "else[correct_only_scale] if[correct_scale] self.scale(s)";
+   "else[correct_only_scale] if[correct_scale] self.transform(lie.se3(r_a, t_a))";
+   "else[correct_only_scale] if[correct_scale] lie.se3(r_a, t_a)";
+   "else[correct_only_scale] else[correct_scale] self.transform(lie.se3(r_a, t_a))";
+   "else[correct_only_scale] else[correct_scale] lie.se3(r_a, t_a)"].
 
 Definition trajectory_align_origin : list string :=
   ["np.dot(traj_ref_origin, lie.se3_inverse(traj_origin))";
